@@ -104,14 +104,29 @@ def tr_formula(node, env):
     raise TranslationError("unsupported syntax %s" % type(node).__name__)
 
 
+class _PyRaises(Exception):
+    """an expression of a template that raises this Python exception whenever it is evaluated (statically known from
+    the KIND of the value `size` stands for: `xrange(4.0)`, `None - 1`)"""
+
+
 class _Tmpl:
-    """Compiler of the tiny statement language of the two code templates into one Lean term
-    of type `List α`, with `f : α → α → α` standing for the `{formula}` hole."""
+    """Compiler of the tiny statement language of the two code templates into one Lean term, with
+    `f : α → α → α` standing for the `{formula}` hole.  Three modes, by the kind of Python value `size` is:
+
+    * "int"    — an object with `__index__` (int, bool): `size : Int`, result `List α` (the mode the theorems about
+                 windows are stated in);
+    * "num"    — a number WITHOUT `__index__` (float, Fraction) of exact value `size : Rat`: `size == 1` is decided on
+                 the value, arithmetic stays a number, `xrange(<number>)` raises TypeError; result `Except String (List α)`;
+    * "opaque" — None / str: `==` is False, `!=` True, arithmetic / ordering / `xrange` raise TypeError; result
+                 `Except String (List α)`."""
 
     HOLE = "FORMULA__HOLE"
+    PARAMS = "PARAMS__DEF"
 
-    def __init__(self):
+    def __init__(self, mode="int"):
         self.count = {}
+        self.mode = mode
+        self.exc = mode != "int"
 
     def fresh(self, name):
         if not re.fullmatch(r"[A-Za-z_][A-Za-z0-9_]*", name):
@@ -123,17 +138,36 @@ class _Tmpl:
             lean = name + "_0"
         return lean
 
-    # --- int / range / bool expressions ---------------------------------------------------
-    def int_expr(self, node, env):
+    # --- arithmetic on int / number / opaque values -------------------------------------------
+    @staticmethod
+    def _rat(kind, term):
+        return term if kind == "num" else "((%s : Int) : Rat)" % term
+
+    def arith(self, node, env):
+        """-> (kind, Lean term); kind "int" (term : Int) or "num" (term : Rat); an operation on an opaque value raises"""
         if isinstance(node, ast.Constant) and isinstance(node.value, int) and not isinstance(node.value, bool):
-            return "(%d : Int)" % node.value
-        if isinstance(node, ast.Name) and env.get(node.id, (None,))[0] == "int":
-            return env[node.id][1]
+            return "int", "(%d : Int)" % node.value
+        if isinstance(node, ast.Name) and env.get(node.id, (None,))[0] in ("int", "num", "opaque"):
+            return env[node.id]
         if isinstance(node, ast.BinOp) and type(node.op) in (ast.Add, ast.Sub, ast.Mult):
-            return "(%s %s %s)" % (self.int_expr(node.left, env), BINOPS[type(node.op)], self.int_expr(node.right, env))
+            (ka, a), (kb, b) = self.arith(node.left, env), self.arith(node.right, env)
+            if "opaque" in (ka, kb):
+                raise _PyRaises("TypeError")
+            if ka == kb == "int":
+                return "int", "(%s %s %s)" % (a, BINOPS[type(node.op)], b)
+            return "num", "(%s %s %s)" % (self._rat(ka, a), BINOPS[type(node.op)], self._rat(kb, b))
         if isinstance(node, ast.UnaryOp) and isinstance(node.op, ast.USub):
-            return "(-%s)" % self.int_expr(node.operand, env)
+            k, a = self.arith(node.operand, env)
+            if k == "opaque":
+                raise _PyRaises("TypeError")
+            return k, "(-%s)" % a
         raise TranslationError("unsupported integer expression %s" % ast.dump(node)[:80])
+
+    def int_expr(self, node, env):
+        k, t = self.arith(node, env)
+        if k != "int":
+            raise _PyRaises("TypeError")          # a float / Fraction / None where an index is needed
+        return t
 
     def range_expr(self, node, env):
         if isinstance(node, ast.Name) and env.get(node.id, (None,))[0] == "range":
@@ -150,8 +184,17 @@ class _Tmpl:
 
     def bool_expr(self, node, env):
         if isinstance(node, ast.Compare) and len(node.ops) == 1 and type(node.ops[0]) in self.CMP:
-            return "(%s %s %s)" % (self.int_expr(node.left, env), self.CMP[type(node.ops[0])],
-                                   self.int_expr(node.comparators[0], env))
+            (ka, a), (kb, b) = self.arith(node.left, env), self.arith(node.comparators[0], env)
+            op = type(node.ops[0])
+            if "opaque" in (ka, kb):
+                if op is ast.Eq:
+                    return "False"
+                if op is ast.NotEq:
+                    return "True"
+                raise _PyRaises("TypeError")
+            if ka == kb == "int":
+                return "(%s %s %s)" % (a, self.CMP[op], b)
+            return "(%s %s %s)" % (self._rat(ka, a), self.CMP[op], self._rat(kb, b))
         if isinstance(node, ast.BoolOp):
             op = " ∧ " if isinstance(node.op, ast.And) else " ∨ "
             return "(" + op.join(self.bool_expr(v, env) for v in node.values) + ")"
@@ -160,16 +203,24 @@ class _Tmpl:
         raise TranslationError("unsupported condition %s" % ast.dump(node)[:80])
 
     # --- list expressions -------------------------------------------------------------------
+    def to_float(self, v):
+        kind, term = v
+        if kind == "int":
+            return "(TrigField.ofInt %s)" % term
+        if kind == "num":
+            return "(TrigField.ofQ %s)" % term
+        raise _PyRaises("TypeError")
+
     def float_env(self, env):
-        return {k: "(TrigField.ofInt %s)" % v[1] for k, v in env.items() if v[0] == "int"}
+        return {k: self.to_float(v) for k, v in env.items() if v[0] in ("int", "num")}
 
     def elt_expr(self, node, env):
         if isinstance(node, ast.Name) and node.id == self.HOLE:
             # the formula's free variables `size` and `n` resolve in the template's scope here
             for v in ("size", "n"):
-                if env.get(v, (None,))[0] != "int":
-                    raise TranslationError("template does not bind integer %r at the formula" % v)
-            return "f (TrigField.ofInt %s) (TrigField.ofInt %s)" % (env["size"][1], env["n"][1])
+                if env.get(v, (None,))[0] not in ("int", "num", "opaque"):
+                    raise TranslationError("template does not bind a number %r at the formula" % v)
+            return "f %s %s" % (self.to_float(env["size"]), self.to_float(env["n"]))
         if any(isinstance(x, ast.Name) and x.id == self.HOLE for x in ast.walk(node)):
             raise TranslationError("formula hole inside a larger expression")
         return tr_formula(node, self.float_env(env))
@@ -194,6 +245,15 @@ class _Tmpl:
         if not stmts:
             raise TranslationError("template path without return")
         s, rest = stmts[0], stmts[1:]
+        try:
+            return self.stmt(s, rest, env, ind)
+        except _PyRaises as e:
+            if not self.exc:
+                raise TranslationError("integer mode of a template raises %s" % e)
+            return '%s.error "%s"' % (pad, e)
+
+    def stmt(self, s, rest, env, ind):
+        pad = "  " * ind
         if isinstance(s, ast.Expr) and isinstance(s.value, ast.Constant) and isinstance(s.value.value, str):
             return self.block(rest, env, ind)
         if isinstance(s, ast.Pass):
@@ -201,7 +261,7 @@ class _Tmpl:
         if isinstance(s, ast.Return):
             if s.value is None:
                 raise TranslationError("return without value")
-            return pad + self.list_expr(s.value, env)
+            return pad + (".ok (%s)" if self.exc else "%s") % self.list_expr(s.value, env)
         if isinstance(s, ast.If):
             if not s.body or not isinstance(s.body[-1], ast.Return):
                 raise TranslationError("if-branch that does not return")
@@ -218,25 +278,26 @@ class _Tmpl:
             else:
                 raise TranslationError("unsupported assignment")
             new, lines = {}, []
-            for tv, val in pairs:            # right-hand sides see the OLD bindings
+            for tv, val in pairs:            # right-hand sides see the OLD bindings, evaluated left to right
                 if not isinstance(tv, ast.Name):
                     raise TranslationError("unsupported assignment target")
                 try:
-                    kind, term = "int", self.int_expr(val, env)
+                    kind, term = self.arith(val, env)
                 except TranslationError:
                     kind, term = "range", self.range_expr(val, env)
                 lean = self.fresh(tv.id)
                 new[tv.id] = (kind, lean)
-                ty = "Int" if kind == "int" else "List Int"
+                ty = {"int": "Int", "num": "Rat", "range": "List Int"}[kind]
                 lines.append("%slet %s : %s := %s" % (pad, lean, ty, term))
             env2 = dict(env)
             env2.update(new)
             return "\n".join(lines) + "\n" + self.block(rest, env2, ind)
         raise TranslationError("unsupported statement %s" % type(s).__name__)
 
-    def compile(self, template):
+    def parse(self, template):
+        """-> (signature items, body statements); an item is ("param", name, default-literal | None) or ("params_def",)"""
         try:
-            code = template.format(sname="F__", params_def="", formula=self.HOLE)
+            code = template.format(sname="F__", params_def=", %s=0" % self.PARAMS, formula=self.HOLE)
             fn = ast.parse(code).body
         except (KeyError, IndexError, SyntaxError, ValueError) as e:
             raise TranslationError("template does not format/parse: %s" % e)
@@ -244,10 +305,55 @@ class _Tmpl:
             raise TranslationError("template is not one function definition")
         fn = fn[0]
         a = fn.args
-        if [x.arg for x in a.args] != ["size"] or a.vararg or a.kwarg or a.kwonlyargs or a.defaults:
-            raise TranslationError("template signature is not (size{params_def})")
+        if a.vararg or a.kwarg or a.kwonlyargs or a.posonlyargs:
+            raise TranslationError("template signature has */**/keyword-only/positional-only parameters")
+        if any(isinstance(x, ast.Name) and x.id == self.PARAMS for x in ast.walk(ast.Module(fn.body, []))):
+            raise TranslationError("{params_def} used outside the signature")
+        names = [x.arg for x in a.args]
+        defaults = [None] * (len(names) - len(a.defaults)) + list(a.defaults)
+        if names.count(self.PARAMS) != 1:
+            raise TranslationError("template signature does not contain {params_def} exactly once")
+        sig = []
+        for nm, d in zip(names, defaults):
+            if nm == self.PARAMS:
+                sig.append(("params_def",))
+            else:
+                sig.append(("param", nm, None if d is None else _lit(d)))
+        return sig, fn.body
+
+    def compile(self, template):
+        sig, body = self.parse(template)
+        names = [x[1] for x in sig if x[0] == "param"]
+        if "size" not in names:
+            raise TranslationError("template has no parameter `size`")
         self.count = {"size": 1}
-        return self.block(fn.body, {"size": ("int", "size")}, 1)
+        return self.block(body, {"size": (self.mode, "size")}, 1)
+
+
+def _lit(node):
+    """numeric literal of a signature default -> (numerator, denominator, is an int literal)"""
+    neg = False
+    if isinstance(node, ast.UnaryOp) and isinstance(node.op, (ast.USub, ast.UAdd)):
+        neg = isinstance(node.op, ast.USub)
+        node = node.operand
+    if not isinstance(node, ast.Constant):
+        raise TranslationError("default %s is not a numeric literal" % ast.dump(node)[:60])
+    v = node.value
+    _num_literal(v)                                  # (same acceptance rule as inside the formulas)
+    q = Fraction(repr(v)) if isinstance(v, float) else Fraction(v)
+    q = -q if neg else q
+    return q.numerator, q.denominator, isinstance(v, int)
+
+
+def _lean_lit(l):
+    return "none" if l is None else "some { num := %d, den := %d, isInt := %s }" % (l[0], l[1], "true" if l[2] else "false")
+
+
+def _lean_param(name, l):
+    return '{ name := "%s", dflt := %s }' % (name, _lean_lit(l))
+
+
+_src = {}
 
 
 def read_source(path=None):
@@ -272,6 +378,15 @@ def read_source(path=None):
                 raise TranslationError("%s._code_template is not a string literal" % t.value.id)
     if table is None or set(templates) != {"window", "wsymm"}:
         raise TranslationError("table or templates not found in " + path)
+    # `window.symm = wsymm.symm = wsymm`, `window.periodic = wsymm.periodic = window` (module level, chained)
+    links = []
+    for node in tree.body:
+        if (isinstance(node, ast.Assign) and isinstance(node.value, ast.Name) and node.value.id in ("window", "wsymm")
+                and all(isinstance(t, ast.Attribute) and isinstance(t.value, ast.Name) and t.value.id in ("window", "wsymm")
+                        and t.attr in ("symm", "periodic") for t in node.targets)):
+            links += [(t.value.id, t.attr, node.value.id) for t in node.targets]
+    _src["links"] = links
+    _src["loop"] = next((n for n in tree.body if isinstance(n, ast.FunctionDef) and n.name == "_generate_window_strategies"), None)
     if not isinstance(table, ast.List):
         raise TranslationError("_content_generation_table is not a list literal")
     entries = []
@@ -307,8 +422,15 @@ def translate(entries, templates):
     w("variable {α : Type} [TrigField α]\n")
     w("/-- `xrange(k)` -/\ndef xrange (k : Int) : List Int := (List.range k.toNat).map Int.ofNat\n")
     w("/-- `xrange(a, b)` -/\ndef xrangeFrom (a b : Int) : List Int := (List.range (b - a).toNat).map (fun i => a + Int.ofNat i)\n")
-    w("/-- one row of `window._content_generation_table`: the names and the `distinct` flag -/\n"
-      "structure Row where\n  names : List String\n  distinct : Bool\n  deriving Repr, DecidableEq\n")
+    w("/-- a numeric literal: exact value `num/den`, and whether it is written as an `int` -/\n"
+      "structure Lit where\n  num : Int\n  den : Nat\n  isInt : Bool\n  deriving Repr, DecidableEq\n")
+    w("/-- a parameter of a generated function: its name and its default (`none` = required) -/\n"
+      "structure Param where\n  name : String\n  dflt : Option Lit\n  deriving Repr, DecidableEq\n")
+    w("/-- the signature of a code template: parameters, and the place where `{params_def}` is spliced in -/\n"
+      "inductive SigItem where\n  | param (p : Param)\n  | paramsDef\n  deriving Repr, DecidableEq\n")
+    w("/-- one row of `window._content_generation_table`: the names, the `distinct` flag and the parameters its\n"
+      "    `params_def` text adds to the signature -/\n"
+      "structure Row where\n  names : List String\n  distinct : Bool\n  params : List Param\n  deriving Repr, DecidableEq\n")
     seen, rows, defaults, forms = set(), [], [], []
     for e in entries:
         names = e.get("names")
@@ -331,14 +453,18 @@ def translate(entries, templates):
             ftree = ast.parse(formula.strip(), mode="eval")
         except SyntaxError as ex:
             raise TranslationError("%s: %s" % (sname, ex))
-        params = [a.arg for a in sig.args][1:]
-        if sig.vararg or sig.kwarg or sig.kwonlyargs or len(sig.defaults) != len(params) or params not in ([], ["alpha"]):
+        pnames = [a.arg for a in sig.args][1:]
+        if sig.vararg or sig.kwarg or sig.kwonlyargs or sig.posonlyargs or len(set(pnames)) != len(pnames) or "size" in pnames:
             raise TranslationError("%s: unsupported parameters %r" % (sname, pdef))
+        pdefaults = [None] * (len(pnames) - len(sig.defaults)) + list(sig.defaults)
+        plist = [(nm, None if d is None else _lit(d)) for nm, d in zip(pnames, pdefaults[len(pdefaults) - len(pnames):])]
+        params = ["alpha"] if "alpha" in pnames else []      # the formula's own extra variable
         env = {"size": "size", "n": "n"}
         default = "none"
         if params:
             env["alpha"] = "alpha"
-            default = "some (%s)" % tr_formula(sig.defaults[0], {})
+            d = dict(zip(pnames, pdefaults[len(pdefaults) - len(pnames):]))["alpha"]
+            default = "none" if d is None else "some (%s)" % tr_formula(d, {})
         body = tr_formula(ftree, env)
         args = "(size n alpha : α)" if params else "(size n : α)"
         w("/-- formula of %s: `%s` -/" % (", ".join(names), formula.strip()))
@@ -347,13 +473,29 @@ def translate(entries, templates):
         forms.append('  | "%s" => some (%s)' % (sname, fn))
         if params:
             defaults.append('  | "%s" => %s' % (sname, default))
-        rows.append('  { names := [%s], distinct := %s }' % (
-            ", ".join('"%s"' % x for x in names), "true" if distinct else "false"))
+        rows.append('  { names := [%s], distinct := %s, params := [%s] }' % (
+            ", ".join('"%s"' % x for x in names), "true" if distinct else "false",
+            ", ".join(_lean_param(nm, l) for nm, l in plist)))
     w("/-- `window._code_template`: %s -/" % " ⏎ ".join(l.strip() for l in templates["window"].strip().splitlines()))
     w("def periodicT (f : α → α → α) (size : Int) : List α :=\n%s\n" % _Tmpl().compile(templates["window"]))
     w("/-- `wsymm._code_template`: %s -/" % " ⏎ ".join(l.strip() for l in templates["wsymm"].strip().splitlines()))
     w("def symmT (f : α → α → α) (size : Int) : List α :=\n%s\n" % _Tmpl().compile(templates["wsymm"]))
-    w("/-- `window._content_generation_table`: names and `distinct` flags, in table order -/")
+    for dn, tn in (("window", "periodic"), ("wsymm", "symm")):
+        w("/-- `%s._code_template` called with a `size` that is a number WITHOUT `__index__` (float, Fraction) of exact\n"
+          "    value `size`: `xrange(size)` raises TypeError, `size == 1` is decided on the value -/" % dn)
+        w("def %sN (f : α → α → α) (size : Rat) : Except String (List α) :=\n%s\n" % (tn, _Tmpl("num").compile(templates[dn])))
+        w("/-- `%s._code_template` called with a `size` that is no number at all (None, str): `==` is False, arithmetic and\n"
+          "    `xrange` raise TypeError -/" % dn)
+        w("def %sO (f : α → α → α) : Except String (List α) :=\n%s\n" % (tn, _Tmpl("opaque").compile(templates[dn])))
+        sig, _body = _Tmpl().parse(templates[dn])
+        w("/-- signature of `%s._code_template` (`def {sname}(...)`) -/" % dn)
+        w("def %sSig : List SigItem := [%s]\n" % (dn, ", ".join(
+            ".paramsDef" if it[0] == "params_def" else ".param " + _lean_param(it[1], it[2]) for it in sig)))
+    w("/-- the module-level attribute assignments `window.symm = wsymm.symm = wsymm` and\n"
+      "    `window.periodic = wsymm.periodic = window`: (object, attribute, value) -/")
+    w("def dictLinks : List (String × String × String) := [%s]\n" % ", ".join(
+        '("%s", "%s", "%s")' % l for l in _src.get("links", [])))
+    w("/-- `window._content_generation_table`: names, `distinct` flags and parameters, in table order -/")
     w("def rows : List Row := [\n%s]\n" % ",\n".join(rows))
     w("/-- default of the extra parameter (`params_def`) of the row whose first name is `sname` -/")
     w("def alphaDefault (sname : String) : Option α :=\n  match sname with\n%s\n" % "\n".join(defaults + ["  | _ => none"]))
